@@ -12,7 +12,7 @@ package main
 //	call:<name>     a call (also go/defer) of the function, method or builtin <name>
 //	store:<field>   a store to a struct field named <field>
 //	mapupdate       m[k] = v
-//	send            a channel send
+//	send            a channel send; send:<T> a send on a channel of named element type T
 //	return          a return
 //
 // "#n" restricts the anchor to its n-th occurrence in source order. An anchor that matches
@@ -76,7 +76,14 @@ func anchorsOf(ins ssa.Instruction) []string {
 	case *ssa.MapUpdate:
 		return []string{"mapupdate"}
 	case *ssa.Send:
-		return []string{"send"}
+		// "send" and "send:<element type name>" (so that one channel's sends can be told apart)
+		a := []string{"send"}
+		if ch, ok := t.Chan.Type().Underlying().(*types.Chan); ok {
+			if n, ok := ch.Elem().(*types.Named); ok {
+				a = append(a, "send:"+n.Obj().Name())
+			}
+		}
+		return a
 	case *ssa.Return:
 		return []string{"return"}
 	}
@@ -161,10 +168,17 @@ func (x *Exec) checkAsserts(fr *frame, st *State, ins ssa.Instruction) {
 	case *ssa.MapUpdate:
 		setArg(0, t.Key)
 		setArg(1, t.Value)
+	case *ssa.Send:
+		setArg(0, t.X)
 	}
 	for _, cl := range cls {
 		t, err := env.EvalBool(cl.E)
 		if err != nil {
+			// an assertion anchored at every return (no #n) speaks about the returns where its
+			// variables exist: a return that precedes the declaration of one of them is not a site
+			if _, isRet := ins.(*ssa.Return); isRet && !strings.Contains(cl.Anchor, "#") && strings.Contains(err.Error(), "unresolved name") {
+				continue
+			}
 			x.stale(fr, cl, err)
 			continue
 		}
